@@ -30,7 +30,7 @@ RULE = (
     "write index of a cold run x {lost write, crash before, crash after} followed by restarts on the surviving store, then key-file truncation / "
     "deletion / replacement across a restart. Non-trivial = a hit was served or an injected cache fault fired on a stored entry; distinct = digest "
     "of (program shape, cache flags, backend, history / fault point)."
-    ' Further: cacheable nodes with emit outputs on DiskCache, two gates sharing one function with equal targets but different emit names, two graphs that differ in one node (extra emit / sibling closure made by the same file-defined factory) sharing one cache, a long-lived DiskCache object serving warm run, hit and damaged lookups; cacheable nodes that return / receive an unpicklable value (in-memory histories); the same two-parameter function with its inputs wired crosswise in the variant graph (equal graph-level inputs, different arguments); disk class unloadable: an authentic entry whose object the upgraded program can no longer load (loader raises ValueError/AttributeError/KeyError/ImportError).'
+    ' Further: cacheable nodes with emit outputs on DiskCache, two gates sharing one function with equal targets but different emit names, two graphs that differ in one node (extra emit / sibling closure made by the same file-defined factory) sharing one cache, a long-lived DiskCache object serving warm run, hit and damaged lookups; cacheable nodes that return / receive an unpicklable value (in-memory histories); the same two-parameter function with its inputs wired crosswise in the variant graph (equal graph-level inputs, different arguments); disk class unloadable: an authentic entry whose object the upgraded program can no longer load (loader raises ValueError/AttributeError/KeyError/ImportError). Interpreter restart probe: definition hashes of a battery of callables (set literals, functools.wraps, bound methods, classmethods, closures over plain objects / sets / deep lists) computed in two fresh interpreter processes with different hash seeds must agree, differ for different definitions, and never make node construction fail.'
 )
 ASSUMPTIONS = [
     "values are immutable (InMemoryCache shares objects by reference)",
@@ -159,6 +159,11 @@ def _variant_graph(g: dict, variant: dict | None) -> dict:
                 nd.setdefault("emit", []).append("vsig")
         g2["nodes"].append({"kind": "fn", "name": "vw", "params": [], "outs": ["vw_o"], "wait_for": ["vsig"]})
         g2["order"] = list(g2["order"]) + [len(g2["nodes"]) - 1]
+    if variant.get("emit_split"):
+        for nd in g2["nodes"]:
+            if nd["name"] == variant["emit_split"]:
+                nd["emit"] = [nd["outs"][1]]
+                nd["outs"] = [nd["outs"][0]]
     if variant.get("swap"):
         for nd in g2["nodes"]:
             if nd["name"] == "sw":
@@ -177,7 +182,51 @@ def _variant_graph(g: dict, variant: dict | None) -> dict:
     return g2
 
 
+def run_hash_probe(doc: dict) -> dict:
+    """A process restart really is a new interpreter: the definition hashes of a battery of callables are computed in two fresh
+    interpreter processes with different hash seeds. Unequal hashes mean a persistent cache entry can never be hit after a restart
+    (the function is invoked again although the entry is retained); equal hashes of different definitions mean they serve each other's
+    entries; and building a node must not fail because of what its function captured."""
+    import json as _json
+    import subprocess
+    import sys as _sys
+
+    import hypergraph
+
+    res = empty_result()
+    src = os.path.dirname(os.path.dirname(os.path.abspath(hypergraph.__file__)))
+    outs = []
+    for hs in doc["hashseeds"]:
+        env = {**os.environ, "PYTHONHASHSEED": str(hs), "PYTHONPATH": src}
+        p = subprocess.run([_sys.executable, os.path.join(os.path.dirname(os.path.dirname(os.path.abspath(__file__))), "hgsim", "hashbattery.py")], capture_output=True, text=True, env=env, timeout=120)
+        if p.returncode != 0:
+            raise RuntimeError("hash battery failed: " + p.stderr[-300:])
+        outs.append(_json.loads(p.stdout))
+        res["runs"] += 1
+    a, b = outs
+    viol: list = []
+    unstable = sorted(k for k in a["stable"] if a["stable"][k] != b["stable"][k])
+    if unstable:
+        viol.append(("restart:definition_hash_differs_between_interpreter_processes", {"callables": unstable}))
+    collide = sorted(k for k, v in a["distinct"].items() if not v)
+    if collide:
+        viol.append(("restart:different_definitions_share_a_hash", {"pairs": collide}))
+    unbuildable = {k: v for k, v in a["buildable"].items() if v is not True}
+    if unbuildable:
+        viol.append(("restart:node_cannot_be_built_because_of_what_its_function_captured", unbuildable))
+    res["violations"] = viol
+    res["nontrivial"] = True
+    res["stats"]["fault_interpreter_restart"] = len(outs)
+    res["shape"] = "hash_probe"
+    res["sched"] = digest(doc["hashseeds"], 6)
+    res["sig"] = digest(["hash_probe", doc["hashseeds"]], 8)
+    res["hdigest"] = digest([a, b], 8)
+    return res
+
+
 def gen_case(rng: random.Random, tier: str) -> dict:
+    if rng.random() < 0.01:
+        return {"kind": "hash_probe", "hashseeds": [rng.randrange(1, 1000), rng.randrange(1000, 2000)]}
     kind = "disk" if rng.random() < 0.35 else "mem"
     if kind == "mem":
         g = gen.gen_program(rng, max_nodes=6, feats={**gen.gen_feats(rng), "maps": rng.random() < 0.3})
@@ -206,6 +255,13 @@ def gen_case(rng: random.Random, tier: str) -> dict:
         cands = [nd["name"] for nd in g["nodes"] if nd["kind"] == "fn" and nd.get("cache") and not nd.get("blk") and not nd.get("closure") and nd.get("fid", nd["name"]) == nd["name"] and nd["name"] + "c" not in [x["name"] for x in g["nodes"]]]
         if cands and rng.random() < 0.35:
             variant = {"node": rng.choice(cands)}
+        consumed = {q["name"] for nd, _d, _p in iter_nodes(g) for q in nd.get("params", [])} | {w_ for nd, _d, _p in iter_nodes(g) for w_ in nd.get("wait_for", [])}
+        split = [nd["name"] for nd in g["nodes"] if nd["kind"] == "fn" and nd.get("cache") and len(nd.get("outs", [])) == 2 and not nd.get("emit") and not nd.get("wait_for") and not nd.get("blk")
+                 and not nd.get("closure") and not nd.get("beh") and nd["outs"][1] not in consumed and nd.get("fid", nd["name"]) == nd["name"] and nd["name"] not in _shared_fids(g)]
+        if split and rng.random() < 0.4:
+            # in the variant graph the node's second output is an ordering signal instead of a data output: same function, same
+            # names, but the boundary between data and signal differs - the entry must not be shared
+            variant = dict(variant or {}, emit_split=rng.choice(split))
         if "closure_twins" in shared:
             variant = dict(variant or {}, closure=True)
         if "swapped_inputs" in shared:
@@ -707,6 +763,8 @@ def _run_disk(doc: dict) -> dict:
 
 
 def run_case(doc: dict) -> dict:
+    if doc.get("kind") == "hash_probe":
+        return run_hash_probe(doc)
     if doc["kind"] == "mem":
         return _run_mem(doc)
     res = _run_disk(doc)
@@ -733,6 +791,9 @@ def narrow(doc: dict, cls: str, detail) -> dict | None:
 
 def shrink_candidates(doc: dict):
     from checks.c02 import shrink_program
+
+    if doc.get("kind") == "hash_probe":
+        return
 
     yield from shrink_program(doc)
     for nd_path in _cache_paths(doc["graph"]):
@@ -775,6 +836,9 @@ def signature(doc: dict, cls: str, detail) -> str:
 
 def sample_repr(doc: dict, res: dict):
     from checks.c02 import sample_repr as sr
+
+    if doc.get("kind") == "hash_probe":
+        return {"probe": "definition hashes of a battery of callables in two fresh interpreter processes", "hashseeds": doc["hashseeds"]}
 
     d = {"graph": doc["graph"], "faults": [], "max_iterations": doc.get("max_iterations"), "error_handling": "continue", "async": [], "sweep": False}
     out = sr(d, res)
